@@ -544,20 +544,38 @@ pub fn min_cap(form16: bool) -> usize {
 
 /// Public-API proxy for "which state is the decoder in".
 pub fn state_proxy(d: &Decoder) -> u64 {
-    let a = d.latin1_byte_compatible_up_to(b"").is_some() as u64;
-    let b = d.max_utf8_buffer_length_without_replacement(0).unwrap_or(usize::MAX) as u64;
-    let c = d.max_utf16_buffer_length(0).unwrap_or(usize::MAX) as u64;
-    let e = crate::encs::index_of(d.encoding()) as u64;
-    a | (b << 1) | (c << 12) | (e << 24)
+    match guard(|| {
+        let a = d.latin1_byte_compatible_up_to(b"").is_some() as u64;
+        let b = d.max_utf8_buffer_length_without_replacement(0).unwrap_or(usize::MAX) as u64;
+        let c = d.max_utf16_buffer_length(0).unwrap_or(usize::MAX) as u64;
+        let e = crate::encs::index_of(d.encoding()) as u64;
+        a | (b << 1) | (c << 12) | (e << 24)
+    }) {
+        Ok(v) => v,
+        Err(_) => {
+            defer_viol("C06", "panic-in-contract", format!("a query (latin1_byte_compatible_up_to / max_*_buffer_length(0)) on an unfinished decoder panicked: {}", take_panic()));
+            u64::MAX
+        }
+    }
 }
 
 pub fn query_for(d: &Decoder, form16: bool, repl: bool, n: usize) -> Option<usize> {
-    if form16 {
-        d.max_utf16_buffer_length(n)
-    } else if repl {
-        d.max_utf8_buffer_length(n)
-    } else {
-        d.max_utf8_buffer_length_without_replacement(n)
+    match guard(|| {
+        if form16 {
+            d.max_utf16_buffer_length(n)
+        } else if repl {
+            d.max_utf8_buffer_length(n)
+        } else {
+            d.max_utf8_buffer_length_without_replacement(n)
+        }
+    }) {
+        Ok(v) => v,
+        Err(_) => {
+            let p = take_panic();
+            defer_viol("C06", "panic-in-contract", format!("max_*_buffer_length({}) panicked: {}", n, p));
+            defer_viol("C07", "query-panicked", format!("max_*_buffer_length({}) panicked: {}", n, p));
+            None
+        }
     }
 }
 
@@ -614,6 +632,9 @@ pub fn drive_dec(spec: &DecSpec, mode: DecMode, source: &mut dyn OpSource, mut p
         run.events += 1;
         if run.events > max_events {
             break;
+        }
+        for (p, o, d) in take_deferred() {
+            run.viols.push(viol(p, o, d));
         }
         match op {
             Op::Deliver(n) => {
@@ -903,6 +924,9 @@ pub fn drive_dec(spec: &DecSpec, mode: DecMode, source: &mut dyn OpSource, mut p
                 }
             }
         }
+    }
+    for (p, o, d) in take_deferred() {
+        run.viols.push(viol(p, o, d));
     }
     run.consumed = consumed;
     run.ops = source.recorded().to_vec();
